@@ -193,6 +193,20 @@ pub fn phases(thorough: bool, _seed: u64) -> Vec<Phase> {
                     acc += PiecewiseEvaluator::new(&sum.segments).evaluate(x);
                 }
                 let _ = f.abs_diff_eq(&f, 0.0) | f.relative_eq(&f, 0.0, 0.0);
+                // the derived / standard operations too: Clone (clone and clone_from in both length orders), PartialEq, Debug, Default
+                let mut c1 = sum.clone();
+                c1.clone_from(&qa);
+                let mut c2 = qa.clone();
+                c2.clone_from(&sum);
+                let mut c3: Piecewise<IntOfLogPoly4> = Default::default();
+                c3.clone_from(&dif);
+                let mut c4 = dif.clone();
+                c4.clone_from(&Piecewise::default());
+                acc += (c1 == qa) as u8 as f64 + (c2 == sum) as u8 as f64 + (c3 == dif) as u8 as f64 + c4.segments.len() as f64;
+                if !(c1 == qa && c2 == sum && c3 == dif && c4.segments.is_empty()) {
+                    panic!("clone_from does not make the destination equal to the source");
+                }
+                acc += format!("{:?}", c1).len() as f64;
                 let _ = serde_json::to_string(&sum).ok();
                 let _ = serde_cbor::to_vec(&dif).ok().and_then(|b| serde_cbor::from_slice::<Piecewise<IntOfLogPoly4>>(&b).ok());
                 acc
